@@ -104,7 +104,8 @@ def mask_cache_rule(chk, repo, clause):
                     continue
                 n_paths += 1
                 i, last = ms[-1]
-                obj, val = last.target, last.data.get('value')
+                from .common import final_attr_value
+                obj, val = last.target, final_attr_value(p, last)
                 fresh = [e for e in p.events[i + 1:] if e.kind == 'write' and e.data.get('how') == 'attrstore'
                          and e.data.get('attr') == '_slice' and e.target == obj]
                 good = False
